@@ -121,6 +121,7 @@ Record cspec := mkSpec {
   c_deadline : option Z;      (* startingDeadlineSeconds *)
   c_succ_limit : option Z;
   c_fail_limit : option Z;
+  c_tz_ok : bool;             (* spec.timeZone is nil or loads (validateTZandSchedule 321-333) *)
 }.
 
 Record cstatus := mkStatus {
@@ -277,6 +278,7 @@ Definition E_OK : Z := 0.
 Definition E_SCHED : Z := 1.     (* nextScheduleTime error *)
 Definition E_REPLACE : Z := 2.   (* Replace: Get of an active job failed *)
 Definition E_CREATE : Z := 3.    (* Create failed (injected) *)
+Definition E_TZ : Z := 5.        (* validateTZandSchedule: spec.timeZone does not load *)
 Definition E_CONFLICT : Z := 4.  (* AlreadyExists, and the conflicting job could not be fetched *)
 Definition E_FUEL : Z := 9.      (* model artefact *)
 
@@ -464,6 +466,7 @@ Definition decide (fuel : nat) (spec : cspec) (st : cstatus) (jobs : list job) (
            (now : Z) (fail_create : bool) (upd0 : bool) (hd : list Z)
   : cstatus * list job * Z * rout :=
   if c_suspend spec then (st, jobs, uid, mkOut None upd0 E_OK [] hd [] st)
+  else if negb (c_tz_ok spec) then (st, jobs, uid, mkOut None upd0 E_TZ [] hd [] st)
   else
     match next_schedule_time fuel (c_created spec) (st_last st) (c_deadline spec) now with
     | NsErr => (st, jobs, uid, mkOut None upd0 E_SCHED [] hd [] st)
@@ -533,10 +536,10 @@ Definition step (fuel : nat) (s : cstate) (o : op) : cstate * option rout :=
     end
   | OpSuspend b =>
     let sp := s_spec s in
-    (set_spec s (mkSpec (c_created sp) b (c_policy sp) (c_deadline sp) (c_succ_limit sp) (c_fail_limit sp)), None)
+    (set_spec s (mkSpec (c_created sp) b (c_policy sp) (c_deadline sp) (c_succ_limit sp) (c_fail_limit sp) (c_tz_ok sp)), None)
   | OpPolicy p =>
     let sp := s_spec s in
-    (set_spec s (mkSpec (c_created sp) (c_suspend sp) p (c_deadline sp) (c_succ_limit sp) (c_fail_limit sp)), None)
+    (set_spec s (mkSpec (c_created sp) (c_suspend sp) p (c_deadline sp) (c_succ_limit sp) (c_fail_limit sp) (c_tz_ok sp)), None)
   end.
 
 (* run a history, collecting the outputs of the reconciles in order *)
@@ -553,6 +556,46 @@ Definition created_times (outs : list rout) : list Z :=
   flat_map (fun o => map snd (o_creates o)) outs.
 
 End WithNext.
+
+(* ------------------------------------------------------------------ *)
+(* formatSchedule (util 61-76) / validateTZandSchedule (util 321-333):   *)
+(* which time zone the schedule handed to the cron parser is evaluated in *)
+(* ------------------------------------------------------------------ *)
+
+Inductive tzspec :=
+| TzNil                    (* spec.timeZone == nil *)
+| TzLoads (z : Z)          (* names a zone time.LoadLocation knows (zone id) *)
+| TzInvalid.               (* does not load *)
+
+(* the three grammars cron.ParseStandard accepts after an optional TZ= prefix *)
+Inductive skind := KFive | KEvery | KDescriptor.
+
+Record sstr := mkSstr {
+  ss_kind : skind;
+  ss_embedded : option Z;  (* the string itself starts with TZ=<zone> / CRON_TZ=<zone> *)
+}.
+
+Inductive fmt_res := FmtAsIs | FmtPrefixed (z : Z).   (* "TZ=<z> <schedule>" *)
+
+Definition format_schedule (tz : tzspec) (s : sstr) : fmt_res :=
+  match ss_embedded s with
+  | Some _ => FmtAsIs                       (* strings.Contains(schedule, "TZ") *)
+  | None => match tz with TzLoads z => FmtPrefixed z | _ => FmtAsIs end
+  end.
+
+Inductive zone := ZLocal | ZNamed (z : Z).
+
+(* the Location of the parsed schedule: the TZ= prefix of the formatted string
+   if there is one, else time.Local (= the zone of the time argument) *)
+Definition zone_used (tz : tzspec) (s : sstr) : zone :=
+  match format_schedule tz s with
+  | FmtPrefixed z => ZNamed z
+  | FmtAsIs => match ss_embedded s with Some z => ZNamed z | None => ZLocal end
+  end.
+
+(* validateTZandSchedule refuses a zone that does not load, before parsing *)
+Definition validate_tz (tz : tzspec) : bool :=
+  match tz with TzInvalid => false | _ => true end.
 
 (* ------------------------------------------------------------------ *)
 (* A schedule given by the table of its points                          *)
